@@ -49,3 +49,47 @@ let run_frame (toks : string list) : string =
       (hex_of_bytes (output_of (nat_of_int 2) ending evs)) (hex_of_bytes (output_of (nat_of_int 0) ending evs))
       (hex_of_bytes (output_of (nat_of_int 1) lf evs))
   | _ -> failwith "frame case"
+
+(* ---- kind "lh": a built Logger and its handles, translated to the file-writer model ---- *)
+let lh_config (mode : string) (rot : string) (naming : string) : config =
+  let cap = match mode.[0] with
+    | 'b' | 'f' -> Some (nat_of_int (int_of_string (String.sub mode 1 (String.length mode - 1))))
+    | _ -> None in
+  let nm = match naming with "num" -> NNumbers | "numd" -> NNumbersDirect | "ts" -> NTimestamps | "tsd" -> NTimestampsDirect | _ -> failwith "naming" in
+  { c_spec = { fbase = bytes_of_string "a"; fdisc = None; fts = false; fsfx = Some (bytes_of_string "log") };
+    c_append = false; c_cap = cap;
+    c_rot = (if rot = "~" then None else Some ((CSize (n_of_int (int_of_string (String.sub rot 1 (String.length rot - 1)))), nm), KNever));
+    c_utc = false; c_symlink = false; c_bg = false; c_async = (mode.[0] = 'a' || mode.[0] = 'A') }
+
+(* "<out> <mode> <rot> <naming> ; ops" *)
+let run_lh (toks : string list) : string =
+  match toks with
+  | out :: mode :: rot :: naming :: ";" :: ops ->
+    let cfg = lh_config mode rot naming in
+    let alive = ref [true] in
+    let logged = Buffer.create 64 in
+    let x = ref (fst (step (sys0 (z_of_int 1709251198) Z0) (OStart cfg))) in
+    let do_op o = let (x', ob) = step !x o in x := x'; ob in
+    let res = List.map (fun tok ->
+        match split_on ':' tok with
+        | ["L"; h] ->
+          let b = bytes_of_hex h @ [n_of_int 10] in
+          Buffer.add_string logged (hex_of_bytes b);
+          ignore (do_op (OWrite b)); "r0"
+        | ["F"] -> ignore (do_op OFlush); "r0"
+        | ["H"] -> ignore (do_op OShutdown); "r0"
+        | ["C"] -> alive := !alive @ [true]; "r0"
+        | ["D"; i] ->
+          let i = int_of_string i in
+          if i < List.length !alive && List.nth !alive i then begin
+            alive := List.mapi (fun j a -> if j = i then false else a) !alive;
+            (* only the handle that is dropped last shuts the writers down *)
+            if not (List.exists (fun a -> a) !alive) then ignore (do_op OShutdown)
+          end;
+          "r0"
+        | ["SN"] ->
+          if out = "file" then fst (Flw_driver.string_of_obs (do_op OSnap))
+          else "o=" ^ (let s = Buffer.contents logged in if s = "" then "-" else String.concat "" (List.filter (fun x -> x <> "-") [s]))
+        | _ -> failwith ("lh op " ^ tok)) (List.filter (fun s -> s <> "") ops) in
+    String.concat " " res
+  | _ -> failwith "lh case"
